@@ -743,7 +743,11 @@ def key_expr(e):
     elif e.__class__ == ExprCond:
         return [ 2, key_expr(e.cond), key_expr(e.src1), key_expr(e.src2) ]
     elif e.__class__ == ExprMem:
-        return [ 3, key_expr(e.arg), e.size ]
+        k = [ 3, key_expr(e.arg), e.size ]
+        if isinstance(e.segm, Expr):
+            # cells that differ only by their segment selector are different operands
+            k.append(key_expr(e.segm))
+        return k
     elif e.__class__ == ExprOp:
         return [ 4, e.op ] + [ key_expr(e) for e in e.args ]
     elif e.__class__ == ExprSlice:
